@@ -354,4 +354,23 @@ theorem Inv.cleanExpired {par : Nat → Nat} {s : Pool} (h : Inv par s) (tipEpoc
       · exact ha
   exact this (s, []) h
 
+theorem Desc.has_child {pool : List Blk} {p : Nat} {b : Blk} (h : Desc pool p b) :
+    ∃ c, c ∈ pool ∧ c.parent = p := by
+  induction h with
+  | child h1 h2 => exact ⟨_, h1, h2⟩
+  | step _ _ _ ih => exact ih
+
+/-- each released block is returned once -/
+theorem removeByParent_nodup {s : Pool} (h : (s.pool.map (·.id)).Nodup) (p : Nat) :
+    ((CkbVerif.Orphan.removeByParent s p).2.map (·.id)).Nodup := by
+  by_cases hp : p ∈ s.leaders
+  · have hc : s.leaders.contains p = true := by simpa using hp
+    have perm := bfs_perm (2 * s.pool.length + 2) s.pool [p] []
+    have : (((CkbVerif.Orphan.removeByParent s p).2 ++ (CkbVerif.Orphan.removeByParent s p).1.pool).map (·.id)).Nodup := by
+      simp only [CkbVerif.Orphan.removeByParent, hc, if_true]
+      exact ((perm.map (·.id)).nodup_iff).mpr (by simpa using h)
+    rw [List.map_append] at this
+    exact (List.nodup_append.mp this).1
+  · rw [removeByParent_nonleader hp]; exact List.nodup_nil
+
 end CkbVerif.Orphan
